@@ -39,6 +39,7 @@
 #include <cstdio>
 #include <cstdlib>
 #include <cstring>
+#include <ctime>
 #include <fstream>
 #include <map>
 #include <set>
@@ -258,6 +259,39 @@ static void refNode(const Node& n, const Dual* A, const Dual* B, Dual& out)
     }
 }
 
+// The input domain of the property, per node, on the reference operand values.  The generator
+// stays inside it by construction (its thresholds are equal or tighter); replayed hand-written
+// trees outside it are reported as "outside the domain", never as violations.
+static bool domainOK(const Node& n, double a, double b)
+{
+    const double BIGV = 1e15;   // operands of scaling nodes may be products of two in-range values
+    const double s = n.s;
+    auto mag = [](double v, double lo, double hi) { return std::fabs(v) >= lo && std::fabs(v) <= hi; };
+    if (OPS[n.op].arity >= 1 && !(std::fabs(a) <= BIGV)) return false;
+    if (OPS[n.op].arity == 2 && !(std::fabs(b) <= BIGV)) return false;
+    switch (n.op) {
+    case DIV: case CDIV: return mag(b, 0.05, BIGV);
+    case DIVS: case CDIVS: return mag(s, 0.05, BIGV);
+    case SDIV: case SELFDIV: return mag(a, 0.05, BIGV);
+    case SQRT: case LOG: case LOG10: return a >= 0.01;
+    case EXP: case SINH: case COSH: return std::fabs(a) <= 10.0;
+    case SIN: case COS: return std::fabs(a) <= 1000.0;
+    case TAN: return std::fabs(a) <= 101.0 && std::fabs(std::cos(a)) >= 0.1;
+    case ASIN: case ACOS: return std::fabs(a) <= 0.9;
+    case ACOSH: return a >= 1.1 && a <= 50.0;
+    case ABS: return mag(a, 0.01, BIGV);
+    case POWEE: return a >= 0.05 && a <= 20.0 && std::fabs(b) <= 6.0;
+    case POWES: return (a >= 0.05 && a <= 20.0 && std::fabs(s) <= 4.0) || (a == 0.0 && !std::signbit(a) && s >= 1.0 && s <= 4.0);
+    case POWSE: return std::fabs(a) <= 8.0 && s >= 0.1 && s <= 10.0;
+    case ATAN2EE: return mag(a, 0.01, BIGV) && mag(b, 0.05, BIGV);
+    case ATAN2ES: return mag(a, 0.01, BIGV) && mag(s, 0.05, BIGV);
+    case ATAN2SE: return mag(a, 0.05, BIGV) && mag(s, 0.01, BIGV);
+    case MINEE: case MAXEE: return std::fabs(a - b) >= 0.0099 * (1.0 + std::fabs(a));
+    case MINES: case MINSE: case MAXES: case MAXSE: return std::fabs(a - s) >= 0.0099 * (1.0 + std::fabs(a));
+    default: return true;
+    }
+}
+
 static void refLeaf(const Tree& t, const Node& n, Dual& out)
 {
     out = Dual();
@@ -333,6 +367,8 @@ static bool treeFromJson(const cJSON* c, Tree& t, std::string& err)
         const cJSON* g = cJSON_GetObjectItem(jn, "g");
         if (g) for (int k = 0; k < cJSON_GetArraySize(g); ++k) n.g.push_back(std::strtod(cJSON_GetArrayItem(g, k)->valuestring, nullptr));
         if (n.op == DENSE && int(n.g.size()) != W) { err = "dense leaf without gradient"; return false; }
+        if (n.tb && OPS[n.op].scalar && !OPS[n.op].toolbox && (n.s != double(int(n.s)) || std::fabs(n.s) > 1e6)) { err = "int-scalar flag with a non-integral scalar"; return false; }
+        if (n.tb && !OPS[n.op].toolbox && !(OPS[n.op].scalar)) n.tb = 0;
         if (n.var < 0 || n.var >= W) { err = "var out of range"; return false; }
         if (OPS[n.op].arity >= 1 && (n.a < 0 || n.a >= i)) { err = "child a out of order"; return false; }
         if (OPS[n.op].arity == 2 && (n.b < 0 || n.b >= i)) { err = "child b out of order"; return false; }
@@ -347,6 +383,7 @@ static bool treeFromJson(const cJSON* c, Tree& t, std::string& err)
 // ---------------------------------------------------------------------------
 struct Fail {
     bool set = false;
+    bool domain = false;   // the reference itself is not finite at some node: outside the domain, discard
     std::string rule, key, variant, what;
     int node = -1, slot = -1;
     double got = 0, exp = 0, tol = 0;
@@ -416,18 +453,19 @@ static E applyOp(const Node& n, const E& a, const E& b)
     case CSUB: { E r(a); r -= b; return r; }
     case CMUL: { E r(a); r *= b; return r; }
     case CDIV: { E r(a); r /= b; return r; }
-    case ADDS: return a + s;
-    case SUBS: return a - s;
-    case MULS: return a * s;
-    case DIVS: return a / s;
-    case CADDS: { E r(a); r += s; return r; }
-    case CSUBS: { E r(a); r -= s; return r; }
-    case CMULS: { E r(a); r *= s; return r; }
-    case CDIVS: { E r(a); r /= s; return r; }
-    case SADD: return s + a;
-    case SSUB: return s - a;
-    case SMUL: return s * a;
-    case SDIV: return s / a;
+    // for the arithmetic mixed forms tb==1 means: the scalar operand is an `int`
+    case ADDS: return tb ? a + int(s) : a + s;
+    case SUBS: return tb ? a - int(s) : a - s;
+    case MULS: return tb ? a * int(s) : a * s;
+    case DIVS: return tb ? a / int(s) : a / s;
+    case CADDS: { E r(a); if (tb) r += int(s); else r += s; return r; }
+    case CSUBS: { E r(a); if (tb) r -= int(s); else r -= s; return r; }
+    case CMULS: { E r(a); if (tb) r *= int(s); else r *= s; return r; }
+    case CDIVS: { E r(a); if (tb) r /= int(s); else r /= s; return r; }
+    case SADD: return tb ? int(s) + a : s + a;
+    case SSUB: return tb ? int(s) - a : s - a;
+    case SMUL: return tb ? int(s) * a : s * a;
+    case SDIV: return tb ? int(s) / a : s / a;
     case SELFADD: { E r(a); r += r; return r; }
     case SELFMUL: { E r(a); r *= r; return r; }
     case SELFDIV: { E r(a); r /= r; return r; }
@@ -491,6 +529,7 @@ static double ulpOf(double x)
 static const char* K_DIVS = "div-by-scalar-value-uses-reciprocal";
 static const char* K_POWSE = "pow-scalar-base-value-via-exp-log";
 static const char* K_DYNSDIV = "scalar-over-dynamic-evaluation-garbage";
+static const char* K_POW0 = "pow-base-zero-exponent-one-derivative-zero";
 
 template <class TR>
 static void runVariant(const Tree& t, RootObs& ro, Fail& fail)
@@ -539,6 +578,11 @@ static void runVariant(const Tree& t, RootObs& ro, Fail& fail)
             }
         }
         const E& r = res.back();
+        {
+            bool fin = std::isfinite(R.v);
+            for (int k = 0; k < N; ++k) fin = fin && std::isfinite(R.d[k]) && std::isfinite(R.m[k]);
+            if (!fin) { fail.domain = true; return; }
+        }
         auto setFail = [&](const char* rule, const std::string& key, const char* what, int slot, double got, double exp, double tol) {
             fail.set = true; fail.rule = rule; fail.key = key; fail.variant = vname; fail.node = int(i);
             fail.slot = slot; fail.what = what; fail.got = got; fail.exp = exp; fail.tol = tol;
@@ -570,8 +614,14 @@ static void runVariant(const Tree& t, RootObs& ro, Fail& fail)
             const double tol = KLOCAL * EPS * R.m[k] + 1e-300;
             const double gd = r.derivative(k);
             if (!(std::fabs(gd - R.d[k]) <= tol)) {
+                if (n.op == POWES && A.v == 0.0 && n.s == 1.0 && gd == 0.0 && g_known.count(K_POW0)) {
+                    g_knownHits[K_POW0]++;
+                    ro.deviated = true;
+                    continue;
+                }
                 setFail("derivative(i) of one operation differs from the chain rule applied to the operands",
-                        dynkey, "derivative", k, gd, R.d[k], tol);
+                        (n.op == POWES && A.v == 0.0 && n.s == 1.0 && gd == 0.0) ? std::string(K_POW0) : dynkey,
+                        "derivative", k, gd, R.d[k], tol);
                 break;
             }
         }
@@ -603,7 +653,7 @@ struct TreeFacts {
     bool nonlinear = false;
     int activeSlots = 0;      // slots with a non-zero root magnitude
     uint64_t shape = 0;
-    bool finite = true;
+    bool finite = true;       // false: reference not finite or an argument outside the domain -> discarded
     std::array<bool, W> active{};
 };
 
@@ -630,6 +680,11 @@ static void checkTree(const Tree& t, Fail& fail)
         else {
             refNode(n, &ref[n.a], oi.arity == 2 ? &ref[n.b] : nullptr, ref[i]);
             depth[i] = 1 + std::max(depth[n.a], oi.arity == 2 ? depth[n.b] : 0);
+            if (!domainOK(n, ref[n.a].v, oi.arity == 2 ? ref[n.b].v : 0.0)) {
+                f.finite = false;
+                if (std::getenv("C16_DEBUG_DISCARD"))
+                    std::fprintf(stderr, "DISCARD %s a=%.17g b=%.17g s=%.17g\n", OPS[n.op].name, ref[n.a].v, oi.arity == 2 ? ref[n.b].v : 0.0, n.s);
+            }
         }
         if (oi.nonlinear) f.nonlinear = true;
         mix(uint64_t(n.op) + 1); mix(uint64_t(n.a + 2)); mix(uint64_t(n.b + 2));
@@ -644,8 +699,9 @@ static void checkTree(const Tree& t, Fail& fail)
     if (!f.finite) return;     // counted as discarded by the caller (generator should never produce it)
 
     std::vector<RootObs> obs(NVARIANTS);
-    for (int v = 0; v < NVARIANTS && !fail.set; ++v)
+    for (int v = 0; v < NVARIANTS && !fail.set && !fail.domain; ++v)
         VARIANTS[v](t, obs[v], fail);
+    if (fail.domain) { g_facts.finite = false; return; }
     if (fail.set) return;
 
     // (G) end-to-end and (X) cross-variant at the root.
@@ -665,7 +721,8 @@ static void checkTree(const Tree& t, Fail& fail)
         if (!o.deviated && !(o.v == root.v)) { setFail("root value() differs from the independent end-to-end evaluation", "value", -1, o.v, root.v, 0); return; }
         for (int k = 0; k < o.N; ++k) {
             const double tol = KLOCAL * (f.depth + 1) * EPS * root.m[k] + 1e-300;
-            if (!(std::fabs(o.d[k] - base.d[k]) <= tol)) { setFail("root derivative differs between variants (vs Evaluation<double,16>)", "derivative", k, o.d[k], base.d[k], tol); return; }
+            // two library results, each within `tol` of the exact chain rule -> 2*tol between them
+            if (!(std::fabs(o.d[k] - base.d[k]) <= 2.0 * tol)) { setFail("root derivative differs between variants (vs Evaluation<double,16>)", "derivative", k, o.d[k], base.d[k], tol); return; }
             if (!o.deviated && !(std::fabs(o.d[k] - root.d[k]) <= tol)) { setFail("root derivative differs from the independent end-to-end evaluation", "derivative", k, o.d[k], root.d[k], tol); return; }
         }
     }
@@ -743,25 +800,40 @@ struct Builder {
         return push(n);
     }
 
-    int gen(int budget)
+    int gen(int budget, bool top = false)
     {
-        if (budget <= 1 || pickInt(0, 100) < 12) return leaf();
+        if (budget <= 1 || (!top && pickInt(0, 100) < 8)) return leaf();
+        // 40 %: a node with two Evaluation operands, 60 %: any node kind (uniform)
         int op;
-        do { op = pickInt(COPY, NOPS); } while (!opEnabled(op));
+        const bool wantBinary = pickInt(0, 100) < 40;
+        do { op = pickInt(COPY, NOPS); } while (!opEnabled(op) || (wantBinary && OPS[op].arity != 2));
         const OpInfo& oi = OPS[op];
         Node n; n.op = op;
         n.tb = (oi.toolbox && pickInt(0, 3) == 0) ? 1 : 0;
         const double BIG = 1e6;
+        if (op == POWES && pickInt(0, 100) < 4) {
+            // base exactly 0 with a full gradient (dense leaf), exponent >= 1: inside the domain of
+            // pow, differentiable, textbook derivative s*0^(s-1)
+            Node z; z.op = DENSE; z.s = 0.0; z.g.resize(W);
+            for (int i = 0; i < W; ++i) z.g[i] = pickSigned(0.05, 2.0);
+            static const double ge1[] = {1.0, 2.0, 3.0, 1.5, 2.5, 1.0};
+            n.s = ge1[pickInt(0, 6)];
+            n.a = push(z);
+            return push(n);
+        }
         int a = gen(budget - 1);
         int b = -1;
         if (oi.arity == 2) b = gen(budget - 1);
         switch (op) {
         case DIV: case CDIV: a = fit(a, -BIG, BIG); b = away0(b, 0.05, BIG); break;
         case ADDS: case SUBS: case CADDS: case CSUBS: case SADD: case SSUB:
-            a = fit(a, -BIG, BIG); n.s = pickReal(-3, 3); break;
-        case MULS: case CMULS: case SMUL: a = fit(a, -BIG, BIG); n.s = pickSigned(0.05, 3); break;
-        case DIVS: case CDIVS: a = fit(a, -BIG, BIG); n.s = pickSigned(0.05, 3); break;
-        case SDIV: a = away0(a, 0.05, BIG); n.s = pickReal(-3, 3); break;
+            a = fit(a, -BIG, BIG); n.tb = pickInt(0, 5) == 0;
+            n.s = n.tb ? double(pickInt(-3, 4)) : pickReal(-3, 3); break;
+        case MULS: case CMULS: case SMUL: case DIVS: case CDIVS:
+            a = fit(a, -BIG, BIG); n.tb = pickInt(0, 5) == 0;
+            n.s = n.tb ? double(pickInt(1, 4)) * (pickInt(0, 2) ? -1.0 : 1.0) : pickSigned(0.05, 3); break;
+        case SDIV: a = away0(a, 0.05, BIG); n.tb = pickInt(0, 5) == 0;
+            n.s = n.tb ? double(pickInt(-3, 4)) : pickReal(-3, 3); break;
         case SELFDIV: a = away0(a, 0.05, BIG); break;
         case SQRT: case LOG: case LOG10: a = fit(a, 0.01, BIG); break;
         case EXP: case SINH: case COSH: a = fit(a, -10, 10); break;
@@ -782,9 +854,12 @@ struct Builder {
             break;
         }
         case POWSE: a = fit(a, -8, 8); n.s = pickReal(0.1, 10); break;
-        case ATAN2EE: a = fit(a, -BIG, BIG); b = away0(b, 0.05, BIG); break;
-        case ATAN2ES: a = fit(a, -BIG, BIG); n.s = pickSigned(0.05, 3); break;
-        case ATAN2SE: a = away0(a, 0.05, BIG); n.s = pickReal(-3, 3); break;
+        // atan2: the second argument away from 0 (the library divides by it), the first one away
+        // from 0 as well: atan2(+-0, negative) = +-pi is the branch cut, and `s - E` may legitimately
+        // produce -0.0 where IEEE s - v gives +0.0 (equal values, different side of the cut)
+        case ATAN2EE: a = away0(a, 0.01, BIG); b = away0(b, 0.05, BIG); break;
+        case ATAN2ES: a = away0(a, 0.01, BIG); n.s = pickSigned(0.05, 3); break;
+        case ATAN2SE: a = away0(a, 0.05, BIG); n.s = pickSigned(0.01, 3); break;
         case MINEE: case MAXEE:
             a = fit(a, -BIG, BIG); b = fit(b, -BIG, BIG);
             if (std::fabs(val[a] - val[b]) < 0.01 * (1.0 + std::fabs(val[a]))) b = unaryS(ADDS, b, 0.5 + std::fabs(val[a]));
@@ -812,7 +887,7 @@ static rc::Gen<Tree> genTree()
             bld.t.dynN = 1 + pickInt(0, W);
             for (int i = 0; i < W; ++i) bld.t.x[i] = pickReal(-3, 3);
             const int budget = std::min(6, 2 + size / 12);   // nominal depth 2..6 (domain adapters may add levels)
-            bld.gen(budget);
+            bld.gen(budget, true);
             return bld.t;
         });
     });
@@ -902,11 +977,15 @@ static std::string mapJson(const std::map<std::string, long>& m)
 int main(int argc, char** argv)
 {
     std::string replay, fpsOut;
+    double deadline = 0;    // seconds of wall time after which remaining cases are skipped (0 = none)
+    bool timedOut = false;
+    const time_t tStart = time(nullptr);
     for (int i = 1; i < argc; ++i) {
         const std::string a = argv[i];
         if (a == "--replay" && i + 1 < argc) replay = argv[++i];
         else if (a == "--fail-out" && i + 1 < argc) g_failOut = argv[++i];
         else if (a == "--fps-out" && i + 1 < argc) fpsOut = argv[++i];
+        else if (a == "--deadline" && i + 1 < argc) deadline = std::atof(argv[++i]);
         else if (a == "--known" && i + 1 < argc) {
             std::stringstream ss(argv[++i]); std::string k;
             while (std::getline(ss, k, ',')) if (!k.empty()) g_known.insert(k);
@@ -939,6 +1018,10 @@ int main(int argc, char** argv)
 
     bool failed = false;
     const bool ok = rc::check("C16: AD exact in every variant", [&](const Tree& t) {
+        if (deadline > 0 && !failed && (timedOut || ((C.cases & 255) == 0 && difftime(time(nullptr), tStart) > deadline))) {
+            timedOut = true;     // soft cap: the rest of the budget is skipped, counters stay valid
+            return;
+        }
         Fail fail;
         checkTree(t, fail);
         if (!g_facts.finite) { if (!failed) C.discarded++; return; }
@@ -958,7 +1041,7 @@ int main(int argc, char** argv)
     }
     std::ostringstream o;
     o << "{\"ok\":" << (ok ? "true" : "false") << ",\"cases\":" << C.cases << ",\"nontrivial\":" << C.nontrivial
-      << ",\"discarded\":" << C.discarded << ",\"variant_evaluations\":" << C.variantEvals
+      << ",\"timed_out\":" << (timedOut ? "true" : "false") << ",\"discarded\":" << C.discarded << ",\"variant_evaluations\":" << C.variantEvals
       << ",\"variants\":" << NVARIANTS << ",\"deviated_trees\":" << C.deviatedTrees
       << ",\"known_hits\":" << mapJson(g_knownHits)
       << ",\"op_trees\":" << mapJson(C.opTrees) << ",\"op_nodes\":" << mapJson(C.opNodes)
